@@ -47,7 +47,7 @@ def _sub(prop, repo, verif_seed, n, hashseed, reverse):
     raise RuntimeError(f"no digests from subprocess: {p.stdout[-400:]} {p.stderr[-400:]}")
 
 
-def main(props, repo, verif_seed, n=60):
+def main(props, repo, verif_seed, n=200):
     bad = 0
     for prop in props:
         prop = prop.upper()
